@@ -264,7 +264,8 @@ impl PhoneticSuggestion {
                 if let Some(suffix) = data.find_suffix(test) {
                     let key = &string.word()[..len - test.len()];
 
-                    if let Some(base) = selections.get(key) {
+                    // An empty selection has nothing to be joined with the suffix.
+                    if let Some(base) = selections.get(key).filter(|base| !base.is_empty()) {
                         let rmc = base.chars().last().unwrap();
                         let suffix_lmc = suffix.chars().next().unwrap();
                         selected.push_str(base);
